@@ -38,6 +38,8 @@ POSITIONS = [
     ('def-object-vararg', 'def f(*object):\n object=Exception\n{B1}\nobs(f())', True),
     ('except-as-object', 'try:\n raise KeyError(1)\nexcept KeyError as object:\n object=Exception\n{B1}', False),
     ('for-object', 'for object in (Exception,):\n{B1}', False),
+    ('typeparam-object', 'def f[object]():\n{B1}\ntry:\n obs(f())\nexcept TypeError:\n obs(5)', True),
+    ('class-typeparam-object', 'class G[*object]:\n{B1}\nobs(G)', False),
 ]
 
 # statement forms: (name, text, needs function?)
@@ -123,7 +125,10 @@ def programs(tier):
                        ('dataclass-first-of-two', 'import dataclasses\n@dataclasses.dataclass\n@ident\nclass D:\n'),
                        ('namedtuple-second-base', 'import typing\nclass M:pass\nclass D(M,typing.NamedTuple):\n') if False else ('typeddict-total', 'import typing\nclass D(typing.TypedDict,total=False):\n'),
                        ('plain-class', 'class D:\n'), ('enum-like', 'import enum\nclass D(enum.Enum):\n')):
-        for body in (' x:int=1\n y:str="s"', ' x:int\n y:str="s"', " 'doc'\n x:int=1", ' x:int=1\n def m(self)->int:\n  z:int=self.x\n  return z'):
+        for body in (' x:int=1\n y:str="s"', ' x:int\n y:str="s"', " 'doc'\n x:int=1", ' x:int=1\n def m(self)->int:\n  z:int=self.x\n  return z',
+                     # fields nested in a compound statement of the class body are still fields; a nested plain class in between does not end them
+                     ' if flag:\n  x:int=1\n y:str="s"', ' try:\n  x:int=1\n finally:\n  y:str="s"', ' with cm(1):\n  x:int=1\n  w:int\n y:str="s"',
+                     ' x:int=1\n class Inner:\n  w:int=3\n y:str="s"', ' class Inner:\n  w:int=3\n  v:int\n x:int=1', ' for i_ in (1,):\n  x:int=1\n else:\n  y:int=2'):
             yield 'stmt:annfield:%s:%s' % (cname, body.replace('\n', ';')), hdr + body + '\nobs(D.__mro__[1:])\nobs(sorted(getattr(D,"__dataclass_fields__",getattr(D,"_fields",())) or getattr(D,"__required_keys__",()) or getattr(D,"__optional_keys__",())))\n'
     for pre_name, pre in PREAMBLES[1:]:
         for pos in POSITIONS[:5]:
